@@ -10,6 +10,10 @@ import (
 
 // sharedSetSites returns the calls d.Set(<shared global g>) in f.
 func (w *World) sharedSetSites(f *ssa.Function, global string) []*ssa.Call {
+	return w.sharedSetSitesDepth(f, global, 0)
+}
+
+func (w *World) sharedSetSitesDepth(f *ssa.Function, global string, depth int) []*ssa.Call {
 	var out []*ssa.Call
 	p := w.newProv(f, nil)
 	for _, c := range w.callsTo(f, "(*Decimal).Set") {
@@ -17,6 +21,42 @@ func (w *World) sharedSetSites(f *ssa.Function, global string) []*ssa.Call {
 			if l.Root.Kind == RGlobalObj && l.Root.Name == global {
 				out = append(out, c)
 			}
+		}
+	}
+	if depth > 2 || global != "decimalNaN" {
+		return out // only the poison value NaN is looked for inside helpers (other shared constants may be mere initial values)
+	}
+	// calls of unexported helpers that store the shared value into their destination on every path
+	for _, ci := range callsIn(f) {
+		c, ok := ci.(*ssa.Call)
+		if !ok {
+			continue
+		}
+		g := callee(c)
+		if g == nil || !w.inPkg(g) || g == f || (g.Object() != nil && g.Object().Exported()) || w.shortName(g) == "(*Decimal).Set" || w.shortName(g) == "(*Decimal).setSlow" {
+			continue
+		}
+		sites := w.sharedSetSitesDepth(g, global, depth+1)
+		if len(sites) == 0 {
+			continue
+		}
+		isSite := func(in ssa.Instruction) bool {
+			for _, s := range sites {
+				if ssa.Instruction(s) == in {
+					return true
+				}
+			}
+			return false
+		}
+		all := true
+		for _, b := range g.Blocks {
+			if rt, isRet := b.Instrs[len(b.Instrs)-1].(*ssa.Return); isRet && !seenBefore(rt, isSite) {
+				all = false
+			}
+		}
+		// and the helper's destination is an argument of this call
+		if all {
+			out = append(out, c)
 		}
 	}
 	return out
@@ -38,6 +78,26 @@ func (w *World) raisesBits(in ssa.Instruction, bits uint64) bool {
 		}
 	case *ssa.Call:
 		if !w.isGoErrorCall(x) {
+			// an unexported helper every return of which raises the bits (e.g. "set NaN and return InvalidOperation")
+			if g := callee(x); g != nil && w.inPkg(g) && (g.Object() == nil || !g.Object().Exported()) && w.condResultIndex(g) >= 0 && !w.raiseBusy[g] {
+				if w.raiseBusy == nil {
+					w.raiseBusy = map[*ssa.Function]bool{}
+				}
+				w.raiseBusy[g] = true
+				defer delete(w.raiseBusy, g)
+				all, n := true, 0
+				for _, b := range g.Blocks {
+					rt, isRet := b.Instrs[len(b.Instrs)-1].(*ssa.Return)
+					if !isRet || w.isErrorReturn(rt) {
+						continue
+					}
+					n++
+					if !w.raisesBits(rt, bits) && !seenBefore(rt, func(in ssa.Instruction) bool { return w.raisesBits(in, bits) }) {
+						all = false
+					}
+				}
+				return all && n > 0
+			}
 			return false
 		}
 		for _, o := range x.Common().Args {
@@ -108,7 +168,7 @@ func ruleInvalidNaNPairing(w *World, r *RuleResult) {
 		// (→) NaN stored ⇒ an invalid-class flag is returned
 		for i, c := range w.sharedSetSites(f, "decimalNaN") {
 			key := fmt.Sprintf("%s | NaN result #%d carries an invalid-class flag", name, i+1)
-			before := seenBefore(c, raise(invalid))
+			before := seenBefore(c, raise(invalid)) || raise(invalid)(c) // a helper may store NaN and raise in one call
 			after, _ := mustPassFrom(c, raise(invalid), errExempt)
 			if before || after {
 				r.ok(key, w.instrPos(c), "InvalidOperation/DivisionUndefined/DivisionImpossible is raised on every path through this store", true)
@@ -125,7 +185,7 @@ func ruleInvalidNaNPairing(w *World, r *RuleResult) {
 				}
 				n++
 				key := fmt.Sprintf("%s | invalid-class flag #%d comes with a NaN result", name, n)
-				before := seenBefore(in, isNaNSet)
+				before := seenBefore(in, isNaNSet) || isNaNSet(in)
 				after, _ := mustPassFrom(in, isNaNSet, errExempt)
 				if _, isRet := in.(*ssa.Return); isRet {
 					after = false
